@@ -79,11 +79,17 @@ def Session.WF : Session α β → Prop
 def disturb (fix : Bool) (f : File) (unc : Codec) (S : Readers) (h : Nat → List Op) : Readers :=
   fun k => run fix f unc (S k) (h k)
 
+/-- what the reader objects look like when the next call of a session starts: the next foreign history (if any)
+has happened -/
+def interleave (fix : Bool) (f : File) (unc : Codec) (S : Readers) : List (Nat → List Op) → Readers
+  | [] => S
+  | h :: _ => disturb fix f unc S h
+
 /-- run a session; before call number `i` the `i`-th element of `hs` (if any) happens on the same objects -/
 def Session.runI (fix : Bool) (f : File) (unc : Codec) : Session α β → Readers → List (Nat → List Op) → β × Readers
   | .done b, S, _ => (b, S)
   | .call p next, S, hs =>
-    let S0 := match hs with | [] => S | h :: _ => disturb fix f unc S h
+    let S0 := interleave fix f unc S hs
     let r := exec fix f unc p S0
     (next r.1).runI fix f unc r.2 hs.tail
 
